@@ -190,6 +190,10 @@ func runC20(c *core.Ctx) error {
 	c.Set("cases_by_kind", kinds)
 	c.Set("exhaustive", true)
 	c.Sample(cases[len(cases)/2])
+	// call histories (SchemaApi_guess.cfg): results do not depend on earlier calls, returned values stay intact
+	if err := runObjHistories(c, objKinds["guess"], objPairs([]string{"1e2", "5E-1", "1.0", "3.00", "0.0", "-4.0", "1.5", "42", "\"a\"", "true", "null", "1", "\"1e5\"", "1.50", "-0", "x", "\"\\\\\""}, c.Pick(34, 120), c.Seed)); err != nil {
+		return err
+	}
 	c.Set("rule", "every state of TypeVocab.tla: all 17x17 type pairs with the expected soft equality, every accepted number text up to MaxLen with its expected kind, one vocabulary record (valid names, near misses, scalar set, token types, non-number literals); each replayed (GuessSchemaType 60x per literal and compared with the scanner's classifier)")
 	c.Assume = append(c.Assume, "the internal 'comment' type is outside the domain in both directions", "IsScalar of mixed/any is not judged")
 	return nil
@@ -198,6 +202,9 @@ func runC20(c *core.Ctx) error {
 func init() {
 	register(&core.Check{ID: "C20", Level: "model_checking", Run: runC20,
 		Replay: func(c *core.Ctx, raw json.RawMessage) ([]core.Finding, error) {
+			if fs, ok := objReplayCase(raw); ok {
+				return fs, nil
+			}
 			var cs tvCase
 			if err := json.Unmarshal(raw, &cs); err != nil {
 				return nil, err
